@@ -215,8 +215,41 @@ func (g *docGen) linkKids(kids []*cnode, parentK string) {
 
 var unseen = map[string]bool{"CMT": true, "HID": true, "HIN": true}
 
+func (g *docGen) seenBefore(kids []*cnode, i int) bool {
+	for j := 0; j < i; j++ {
+		if !unseen[kids[j].k] {
+			return true
+		}
+	}
+	return false
+}
+
+func (g *docGen) seenAfter(kids []*cnode, i int) bool {
+	for j := i + 1; j < len(kids); j++ {
+		if !unseen[kids[j].k] {
+			return true
+		}
+	}
+	return false
+}
+
+// inlineKinds: elements that do not end a line - what lies beyond them is what the text at their edge faces
+var inlineKinds = map[string]bool{"INL": true, "A": true, "AJ": true, "FONT": true}
+
 func (g *docGen) kidsHTML(n *cnode) string {
 	g.linkKids(n.kids, n.k)
+	if inlineKinds[n.k] && n.leftK != "" && n.rightK != "" {
+		// the first / last thing inside an inline element faces the element's own neighbour:
+		// <b>... HERE</b><form> ends a line after HERE just as HERE<form> does
+		for i, c := range n.kids {
+			if c.leftK == n.k && !g.seenBefore(n.kids, i) {
+				c.leftK = n.leftK
+			}
+			if c.rightK == n.k && !g.seenAfter(n.kids, i) {
+				c.rightK = n.rightK
+			}
+		}
+	}
 	var sb strings.Builder
 	for _, c := range n.kids {
 		sb.WriteString(g.render(c))
@@ -360,7 +393,7 @@ func (g *docGen) render(n *cnode) string {
 		case "picture":
 			// pictures may carry more than sources and the image: hidden fallbacks, comments, scripts
 			junkOf := func() string {
-				return g.pick(g.words(2), `<span hidden>`+g.words(2)+`</span>`, `<span style="display:none">`+g.words(2)+`</span>`,
+				return g.pick(" "+g.words(2)+" ", `<span hidden>`+g.words(2)+`</span>`, `<span style="display:none">`+g.words(2)+`</span>`,
 					`<!-- `+g.words(2)+` -->`, `<script>var `+g.words(1)+`;</script>`, `<noscript>`+g.words(2)+`</noscript>`, `<style>.`+g.words(1)+` {color:red}</style>`)
 			}
 			// none, one or several extra children, before and after the image, on one line or pretty-printed
@@ -564,6 +597,11 @@ func (g *docGen) page(forest []*cnode, place string) string {
 		sb.WriteString(g.linkCluster(4) + gen)
 		sb.WriteString(`<div>` + g.para(45) + g.para(40) + g.para(42) + `</div>`)
 		sb.WriteString(g.linkCluster(3))
+	case "bodymid":
+		// the story sits directly in the body, without a wrapper: what is generated has the body as its parent
+		sb.WriteString(g.linkCluster(4))
+		sb.WriteString(g.para(45) + g.para(40) + gen + g.para(42))
+		sb.WriteString(g.linkCluster(3))
 	default: // "mid"
 		sb.WriteString(g.linkCluster(4))
 		sb.WriteString(`<div>` + g.para(45) + g.para(40) + gen + g.para(42) + `</div>`)
@@ -576,4 +614,4 @@ func (g *docGen) page(forest []*cnode, place string) string {
 
 var rxGluedTokens = regexp.MustCompile(`(zq\d+)(zq\d)`)
 
-var docPlaces = []string{"mid", "solo", "lead", "tail", "chrome"}
+var docPlaces = []string{"mid", "solo", "lead", "tail", "chrome", "bodymid"}
